@@ -76,7 +76,7 @@ Lemma movein_ok f d k i content : op_names_ok (OMoveIn d k i content) = true -> 
 Proof.
   cbn [op_names_ok op_ok]. intros Hn Ho. apply andb_true_iff in Hn as [Hd _].
   apply path_ok_split in Hd as [Hd _].
-  apply andb_true_iff in Ho as [Ho Hc]. apply andb_true_iff in Ho as [Hf Hk].
+  apply andb_true_iff in Ho as [Ho _]. apply andb_true_iff in Ho as [Ho Hc]. apply andb_true_iff in Ho as [Hf Hk].
   repeat split; [exact Hd | now apply fresh_not_mem in Hf | |].
   - intros ->. destruct content; [reflexivity | discriminate].
   - intros e He E. rewrite forallb_forall in Hc. specialize (Hc e He). rewrite E in Hc. discriminate.
@@ -137,3 +137,40 @@ Theorem win_replay_full_wf :
   Permutation (map (fun x => (snd x, fst x)) (desc [] (sub (target o)))) (below after (target o)) ->
   Permutation (replay (view_of before) (win_contract sub true after o)) (view_of after).
 Proof. intros sub before o W. apply win_replay_full. now apply wf_closed. Qed.
+
+(* ---------------------------------------------------------------- histories, one operation per batch *)
+Require Import WD.Proofs.PlatClosedProofs.
+
+(* the tree the emitter walked for operation o lists (as a set) what lies below o's target *)
+Definition covers (sub : path -> tree) (after : fs) (o : op) : Prop :=
+  Permutation (map (fun x => (snd x, fst x)) (desc [] (sub (target o)))) (below after (target o)).
+
+(* subs: the walk oracle at each step (the tree changes from step to step) *)
+Fixpoint win_history (subs : list (path -> tree)) (f : fs) (ops : list op) : list aev :=
+  match ops, subs with
+  | o :: r, sub :: sr => win_contract sub true (apply_op f o) o ++ win_history sr (apply_op f o) r
+  | _, _ => []
+  end.
+
+Fixpoint history_ok (subs : list (path -> tree)) (f : fs) (ops : list op) : Prop :=
+  match ops, subs with
+  | [], _ => True
+  | o :: r, sub :: sr =>
+    op_names_ok o = true /\ op_ok f o = true /\ covers sub (apply_op f o) o /\ history_ok sr (apply_op f o) r
+  | _ :: _, [] => False
+  end.
+
+Theorem win_replay_history : forall ops subs f, closed_fs f -> history_ok subs f ops ->
+  Permutation (replay (view_of f) (win_history subs f ops)) (view_of (fold_left apply_op ops f)).
+Proof.
+  induction ops as [|o r IH]; intros subs f C H; [destruct subs; apply Permutation_refl|].
+  destruct subs as [|sub sr]; [destruct H|]. destruct H as (Hn & Ho & Hc & Hr).
+  cbn [win_history fold_left]. rewrite replay_app.
+  eapply Permutation_trans.
+  - apply replay_perm. apply win_replay_full; eassumption.
+  - apply IH; [now apply closed_apply | exact Hr].
+Qed.
+
+Theorem win_replay_history_wf : forall ops subs f, wf_fs f -> history_ok subs f ops ->
+  Permutation (replay (view_of f) (win_history subs f ops)) (view_of (fold_left apply_op ops f)).
+Proof. intros ops subs f W. apply win_replay_history. now apply wf_closed. Qed.
